@@ -215,6 +215,11 @@ def run(prog: Program, rep, tier: str) -> None:
     from . import c04
     from .c01 import _SubReport
     c04.pipeline(prog, _SubReport(rep, keep=("pipeline-order", "restore-wiring")))
+    # a second solve() on the same Solver must start from the same state as the first: policy / controller objects that outlive a
+    # solve carry penalties, filters and step-size histories into the next one, where the asserts of the step solvers (fact > 0,
+    # rho > 0, next_rho > rho) then fail - an internal crash that depends on the history of the object, not on the call
+    from . import c10
+    c10.per_solve(prog, _SubReport(rep, keep=("per-solve-construction", "accumulating-state-reinitialised", "solver-holds-no-state")))
     funcs = [f for f in prog.iter_functions() if prog.in_scope(f) and "FixedActiveSetNewtonMethod" not in f.qualname]
     # ---- (1) certain crashes ---------------------------------------------------------------------------
     n_calls = sum(1 for f in funcs for n in own_nodes(f.node) if isinstance(n, ast.Call))
